@@ -9,8 +9,10 @@
 //!
 //! Ops (see lean/Woodpile/Driver/Abt.lean for the model side):
 //!   trace <snapshot|unlocked> <script> | trace <update|try_update> <b> <voucher> <script>
-//!   machine <sc|ra> ; start <t> <op…> ; step <t> <ts> ; sync <t> <u>
-//!   explore <sc|ra> <maxstates> <prog>/<prog>/…     (oracle only; prog = s | u<b> | t<b> | x<b> | y<b>, comma separated)
+//!   trace sequence <script>                          (`AtomicBaseTime::sequence()`: one relaxed load of the counter)
+//!   machine <sc|ra> ; start <t> <op…> ; step <t> <ts> ; sync <t> <u>     (op may be `sequence`)
+//!   new_default                                      (`AtomicBaseTime::new()` vs `Default::default()`: words, mutex, sequence(), snapshot())
+//!   explore <sc|ra> <maxstates> <prog>/<prog>/…     (oracle only; prog = s | q | u<b> | t<b> | x<b> | y<b>, comma separated; q = sequence())
 use crate::util::*;
 use std::cell::RefCell;
 use std::collections::{HashMap, HashSet};
@@ -296,9 +298,19 @@ struct Obj {
     static_map: Rc<LocMap>,
 }
 
+/// Track apileft: every second object under test is built through `Default::default()` instead of
+/// `AtomicBaseTime::new()` (the model has one `init`): a `default()` that differs from `new()`
+/// shows up as initial words / a first `sequence` load that disagree with the model.
+static OBJ_COUNTER: std::sync::atomic::AtomicUsize = std::sync::atomic::AtomicUsize::new(0);
+
+fn build_cell(via_default: bool) -> AtomicBaseTime {
+    if via_default { Default::default() } else { AtomicBaseTime::new() }
+}
+
 impl Obj {
     fn new() -> Obj {
-        let local = Box::new(AtomicBaseTime::new());
+        let n = OBJ_COUNTER.fetch_add(1, Ordering::Relaxed);
+        let local = Box::new(build_cell(n % 2 == 1));
         let local_map = Rc::new(calibrate(&local));
         let static_map = Rc::new(calibrate(vouched_time::nfs_voucher::verif_base_time()));
         Obj { local, local_map, static_map }
@@ -311,6 +323,8 @@ enum Call {
     Unlocked,
     Update(u64, u64),
     TryUpdate(u64, u64),
+    /// `AtomicBaseTime::sequence()`
+    Sequence,
 }
 
 #[derive(Clone, Copy, PartialEq, Eq, Hash, Debug)]
@@ -318,6 +332,8 @@ enum Ret {
     Snap(u64, u64),
     Bool(bool),
     Unit,
+    /// what `sequence()` returned
+    Seq(u64),
 }
 
 fn fmt_ret(r: Ret) -> String {
@@ -325,6 +341,7 @@ fn fmt_ret(r: Ret) -> String {
         Ret::Snap(b, v) => format!("ret={},{}", b, fmt_val(v)),
         Ret::Bool(b) => format!("ret={}", b),
         Ret::Unit => "ret".into(),
+        Ret::Seq(n) => format!("ret={}", n),
     }
 }
 
@@ -332,6 +349,7 @@ fn parse_call<'a>(w: &'a [&'a str]) -> Option<(Call, &'a [&'a str])> {
     match w {
         ["snapshot", rest @ ..] => Some((Call::Snapshot, rest)),
         ["unlocked", rest @ ..] => Some((Call::Unlocked, rest)),
+        ["sequence", rest @ ..] => Some((Call::Sequence, rest)),
         ["update", b, v, rest @ ..] => Some((Call::Update(b.parse().ok()?, parse_val(v)?), rest)),
         ["try_update", b, v, rest @ ..] => Some((Call::TryUpdate(b.parse().ok()?, parse_val(v)?), rest)),
         _ => None,
@@ -342,6 +360,7 @@ fn fmt_call(c: Call) -> String {
     match c {
         Call::Snapshot => "snapshot".into(),
         Call::Unlocked => "unlocked".into(),
+        Call::Sequence => "sequence".into(),
         Call::Update(b, v) => format!("update {} {}", b, fmt_val(v)),
         Call::TryUpdate(b, v) => format!("try_update {} {}", b, fmt_val(v)),
     }
@@ -502,6 +521,7 @@ fn drive(obj: &Obj, call: Call, feed: Vec<Fed>, auto_unit: bool) -> (Outcome, Re
             Ret::Unit
         }
         Call::TryUpdate(b, v) => Ret::Bool(target.try_update((b, voucher_of_bits(v)))),
+        Call::Sequence => Ret::Seq(target.sequence()),
     }));
     drop(set_backend(prev));
     let replay = Rc::try_unwrap(replay).ok().expect("backend dropped").into_inner();
@@ -569,12 +589,25 @@ struct SimThread {
     floor: u64,
     /// that floor (SC: over all threads) when the current snapshot began
     floor_at_start: u64,
+    /// (track apileft) the largest value of `sequence` this thread has loaded or stored in any call so
+    /// far, or inherited through `sync`: by coherence no later load of the counter by this thread may
+    /// return less - in particular no later `sequence()`
+    seq_floor: u64,
+    /// what this thread's previous `sequence()` returned
+    last_sequence: Option<u64>,
+    /// the values of `sequence` loaded by the call in progress
+    seq_reads: Vec<u64>,
+    /// `seq_floor` when the call in progress began
+    seq_floor_at_start: u64,
+    /// the number of accepted updates published when the call in progress began
+    published_at_start: u64,
 }
 
 impl SimThread {
     fn new() -> SimThread {
         SimThread { view: [0; 5], call: None, fed: vec![], pending: None, status: Status::Idle, own_steps: 0, lock_ops: 0,
-                    stores: 0, start_seen: None, last_seq_read: None, last_snap_base: None, floor: 0, floor_at_start: 0 }
+                    stores: 0, start_seen: None, last_seq_read: None, last_snap_base: None, floor: 0, floor_at_start: 0,
+                    seq_floor: 0, last_sequence: None, seq_reads: vec![], seq_floor_at_start: 0, published_at_start: 0 }
     }
 }
 
@@ -655,6 +688,14 @@ impl Sim {
                 if call == Call::Snapshot && matches!(op, OpRec::Store(..)) {
                     viol.push(format!("C13 snapshot writes ({})", op.fmt()));
                 }
+                if call == Call::Sequence && (op.is_lock_op() || matches!(op, OpRec::Store(..))) {
+                    viol.push(format!("C18 sequence() performs a lock operation or a store ({})", op.fmt()));
+                }
+                // (the model's program is ONE load - an extra load is a correspondence mismatch; the
+                // property itself only says: no waiting, a small constant number of own steps)
+                if call == Call::Sequence && th.own_steps >= 4 {
+                    viol.push(format!("C18 sequence() is not finished after {} accesses (wants {})", th.own_steps, op.fmt()));
+                }
                 if matches!(call, Call::TryUpdate(..)) && op == OpRec::Lock {
                     viol.push("C18 try_update calls the blocking lock()".into());
                 }
@@ -679,12 +720,16 @@ impl Sim {
         th.stores = 0;
         th.start_seen = None;
         th.last_seq_read = None;
+        th.seq_reads.clear();
+        th.seq_floor_at_start = th.seq_floor;
         th.floor_at_start = th.floor;
         if self.sc {
             let f = self.sc_floor;
             let th = self.thread(t);
             th.floor_at_start = th.floor_at_start.max(f);
         }
+        let published = (self.committed.len() - 1) as u64;
+        self.thread(t).published_at_start = published;
         self.refresh(t, obj, viol);
         true
     }
@@ -692,9 +737,11 @@ impl Sim {
     fn sync(&mut self, t: usize, u: usize) {
         let uv = self.thread(u).view;
         let uf = self.thread(u).floor;
+        let usf = self.thread(u).seq_floor;
         let th = self.thread(t);
         th.view = join(&th.view, &uv);
         th.floor = th.floor.max(uf);
+        th.seq_floor = th.seq_floor.max(usf);
     }
 
     /// The choices a scheduler has for thread `t`: `None` = not runnable now.
@@ -744,6 +791,10 @@ impl Sim {
                     th.view = join(&th.view, &mview);
                 }
                 th.fed.push(Fed::Val(val));
+                if *l == SEQ {
+                    th.seq_reads.push(val);
+                    th.seq_floor = th.seq_floor.max(val);
+                }
                 if *l == SEQ && call == Call::Snapshot {
                     if let Some(prev) = th.last_seq_read {
                         if val < prev {
@@ -765,6 +816,9 @@ impl Sim {
                 let mv = if o.releases() { th.view } else { let mut b = [0; 5]; b[*l] = ts; b };
                 th.fed.push(Fed::Unit);
                 th.stores += 1;
+                if *l == SEQ {
+                    th.seq_floor = th.seq_floor.max(*val);
+                }
                 self.mem[*l].push((*val, mv));
                 if *l == SEQ {
                     let pair = match call {
@@ -878,6 +932,44 @@ impl Sim {
                         viol.push("C18 snapshot used the lock or wrote".into());
                     }
                 }
+                if call == Call::Sequence {
+                    // (track apileft) C13/C18 for `sequence()`: one load of the counter, nothing else; the
+                    // value returned is one it loaded from the counter: never below anything this thread has
+                    // seen of the counter (its own earlier sequence() / snapshot() / update calls, threads it
+                    // synchronised with), never above the number of accepted updates published so far,
+                    // and - SC - at least the number published when the call began.
+                    let published = (self.committed.len() - 1) as u64;
+                    match r {
+                        Ret::Seq(n) => {
+                            if th.lock_ops > 0 || th.stores > 0 {
+                                viol.push(format!("C18 sequence() used the lock or wrote ({} steps, last {})", th.own_steps, op.fmt()));
+                            }
+                            if !th.seq_reads.contains(&n) {
+                                viol.push(format!("C13 sequence() returned {} but the values of the counter it loaded are {:?}", n, th.seq_reads));
+                            }
+                            if n < th.seq_floor_at_start {
+                                viol.push(format!("C13 sequence() returned {} after this thread had already observed {}", n, th.seq_floor_at_start));
+                            }
+                            if let Some(prev) = th.last_sequence {
+                                if n < prev {
+                                    viol.push(format!("C13 sequence() decreased within one thread ({} after {})", n, prev));
+                                }
+                            }
+                            if n > published {
+                                viol.push(format!("C13 sequence() returned {} but only {} updates have been accepted", n, published));
+                            }
+                            // SC: a count between the number published when the call began and now (the
+                            // real one-load program returns exactly the number published at its load:
+                            // that is the model's statement, checked through the correspondence)
+                            if sc && n < th.published_at_start {
+                                viol.push(format!("C13 sequence() returned {} on the SC machine although {} accepted updates were published when it began", n, th.published_at_start));
+                            }
+                            th.last_sequence = Some(n);
+                            th.seq_floor = th.seq_floor.max(n);
+                        }
+                        other => viol.push(format!("C13 sequence() returned {:?}", other)),
+                    }
+                }
                 match (call, r) {
                     (Call::Update(b, v), Ret::Unit) | (Call::TryUpdate(b, v), Ret::Bool(true)) if vouch_bits(b) == v => {
                         th.floor = th.floor.max(b);
@@ -891,6 +983,9 @@ impl Sim {
             }
             Status::Panicked => {
                 desc.push_str(";panic");
+                if call == Call::Sequence {
+                    viol.push("C13 sequence() panicked".into());
+                }
             }
             _ => {
                 if was_blocked_try {
@@ -924,6 +1019,9 @@ fn parse_prog(s: &str) -> Option<Vec<Call>> {
         .map(|c| {
             if c == "s" {
                 return Some(Call::Snapshot);
+            }
+            if c == "q" {
+                return Some(Call::Sequence);
             }
             let (k, n) = c.split_at(1);
             let b: u64 = n.parse().ok()?;
@@ -1017,6 +1115,63 @@ fn explore(obj: &Obj, sc: bool, max_states: usize, progs: &[Vec<Call>]) -> Explo
     res
 }
 
+// ---------------------------------------------------------------- new() vs Default::default() (track apileft)
+
+/// The five words and the mutex state of a cell nobody has touched, from the `#[derive(Debug)]`
+/// output of the real structure WITHOUT a backend (the shim then prints what std prints), and what
+/// the real `sequence()` / `snapshot()` return on it (no backend: straight through to std).
+fn describe_cell(cell: &AtomicBaseTime, viol: &mut Vec<String>, who: &str) -> String {
+    let prev = set_backend(None);
+    let text = format!("{:?}", cell);
+    let seq = cell.sequence();
+    let (b, v) = cell.snapshot();
+    let v = unsafe { std::mem::transmute::<raffle::Voucher, u64>(v) };
+    set_backend(prev);
+    fn num_after(text: &str, key: &str, from: usize) -> (Option<u64>, usize) {
+        match text[from..].find(key) {
+            None => (None, from),
+            Some(at) => {
+                let at = at + from + key.len();
+                let digits: String = text[at..].trim_start().chars().take_while(|c| c.is_ascii_digit()).collect();
+                (digits.parse().ok(), at)
+            }
+        }
+    }
+    let (w_seq, p) = num_after(&text, "sequence:", 0);
+    let (b0, p) = num_after(&text, "base_time_ms:", p);
+    let (v0, p) = num_after(&text, "voucher:", p);
+    let (b1, p) = num_after(&text, "base_time_ms:", p);
+    let (v1, _) = num_after(&text, "voucher:", p);
+    let words = [w_seq, b0, v0, b1, v1];
+    let shown: Vec<String> = words.iter().enumerate()
+        .map(|(l, w)| match w { Some(w) => fmt_loc_val(l, *w), None => "?".into() }).collect();
+    let held = text.contains("<locked>");
+    let poisoned = !text.contains("poisoned: false");
+    // direct oracle: the epoch pair in both slots, counter 0, mutex free and clean, and the two calls agree
+    let epoch = [Some(0), Some(0), Some(vouch_bits(0)), Some(0), Some(vouch_bits(0))];
+    if words != epoch || held || poisoned {
+        viol.push(format!("C13 {} does not build the epoch cell: {}", who, text));
+    }
+    if seq != 0 {
+        viol.push(format!("C13 {}.sequence() = {} on a fresh cell", who, seq));
+    }
+    if (b, v) != (0, vouch_bits(0)) {
+        viol.push(format!("C13 {}.snapshot() = ({}, {}) on a fresh cell", who, b, fmt_val(v)));
+    }
+    format!("words={};lock={},{};sequence:{};snapshot:{}", shown.join(","), if held { "held" } else { "free" },
+            if poisoned { "poisoned" } else { "clean" }, fmt_ret(Ret::Seq(seq)), fmt_ret(Ret::Snap(b, v)))
+}
+
+fn new_default_op() -> StepOut {
+    let mut viol = Vec::new();
+    let a = describe_cell(&build_cell(false), &mut viol, "AtomicBaseTime::new()");
+    let d = describe_cell(&build_cell(true), &mut viol, "AtomicBaseTime::default()");
+    let mut so = StepOut::obs(format!("new:{} default:{}", a, d));
+    so.violations = viol;
+    so.tags.push("new_default".into());
+    so
+}
+
 // ---------------------------------------------------------------- executor
 
 pub struct AbtFamily;
@@ -1044,9 +1199,29 @@ impl Exec for AbtExec {
                         so.violations.push(format!("C18 snapshot performs a lock operation (trace {})", if l.len() > 120 { &l[l.len() - 120..] } else { &l }));
                     }
                 }
+                // (track apileft) sequence(), whatever it is fed: one load of the counter, and it returns the value loaded
+                if call == Call::Sequence {
+                    let l = so.obs[0].clone();
+                    let parts: Vec<&str> = l.split(';').collect();
+                    if parts.iter().any(|p| p.contains("lock") || p.contains("clearpoison") || p.starts_with("st.")) {
+                        so.violations.push(format!("C18 sequence() performs a lock operation or a store (trace {})", l));
+                    }
+                    if tag == "finished" {
+                        // the value returned is a value of the counter this call loaded (that it is ONE
+                        // relaxed load is the model's program: any other shape is a correspondence mismatch)
+                        let ret = parts.last().and_then(|p| p.strip_prefix("ret="));
+                        let ok = ret.is_some() && parts.iter().any(|p| p.starts_with("ld.seq.") && p.split('=').nth(1) == ret);
+                        if !ok {
+                            so.violations.push(format!("C13 sequence() returned something it did not load from the counter (trace {})", l));
+                        }
+                    } else if tag == "panicked" {
+                        so.violations.push(format!("C13 sequence() panicked (trace {})", l));
+                    }
+                }
                 so.tags.push(format!("trace_{}_{}", fmt_call(call).split(' ').next().unwrap(), tag));
                 so
             }
+            ["new_default"] => new_default_op(),
             ["machine", m @ ("sc" | "ra")] => {
                 self.sim = Some(Sim::new(*m == "sc"));
                 StepOut::obs("ok")
@@ -1175,11 +1350,12 @@ fn random_call(rng: &mut Rng, allow_unlocked: bool) -> Call {
     let v = if rng.chance(1, 6) { vouch_bits(b.wrapping_add(1)) } else { vouch_bits(b) };
     parse_val(&format!("v{}", b));
     parse_val(&format!("v{}", b.wrapping_add(1)));
-    match rng.below(if allow_unlocked { 8 } else { 7 }) {
+    match rng.below(if allow_unlocked { 9 } else { 7 }) {
         0..=2 => Call::Snapshot,
         3 | 4 => Call::Update(b, v),
         5 | 6 => Call::TryUpdate(b, v),
-        _ => Call::Unlocked,
+        7 => Call::Unlocked,
+        _ => Call::Sequence,
     }
 }
 
@@ -1239,7 +1415,8 @@ fn random_execution(obj: &Obj, rng: &mut Rng, thorough: bool) -> Vec<String> {
         let t = rng.below(nthreads as u64) as usize;
         sim.thread(t);
         if sim.threads[t].status != Status::Running {
-            let call = match rng.below(10) {
+            let call = match rng.below(13) {
+                10..=12 => Call::Sequence,
                 0..=4 => Call::Snapshot,
                 5..=8 => {
                     let b = if rng.chance(1, 5) { clock.saturating_sub(rng.range(1, 3)) } else { clock += rng.below(3); clock };
@@ -1316,7 +1493,11 @@ fn suspension_case(obj: &Obj, sc: bool, warmup: &[Call], w1: Call, k1: usize, w2
     for c in warmup {
         run_alone(&mut sim, &mut ops, 0, *c, 100, 1);
     }
+    // (track apileft) the publisher's own sequence() afterwards: at least what it published
+    run_alone(&mut sim, &mut ops, 0, Call::Sequence, 100, pick);
     run_alone(&mut sim, &mut ops, 1, w1, k1, 1);
+    // sequence() racing with the writer suspended at this point (stalest / freshest counter message)
+    run_alone(&mut sim, &mut ops, 3, Call::Sequence, 100, pick);
     if let Some((c2, k2)) = w2 {
         run_alone(&mut sim, &mut ops, 2, c2, k2, 1);
         if sim.threads[2].status == Status::Running && sim.choices(2).is_none() {
@@ -1326,8 +1507,11 @@ fn suspension_case(obj: &Obj, sc: bool, warmup: &[Call], w1: Call, k1: usize, w2
     // the reader alone, then a try_update caller alone, then the reader again
     run_alone(&mut sim, &mut ops, 3, Call::Snapshot, 100, pick);
     parse_val("v9");
+    run_alone(&mut sim, &mut ops, 3, Call::Sequence, 100, pick);
     run_alone(&mut sim, &mut ops, 4, Call::TryUpdate(9, vouch_bits(9)), 100, 1);
+    run_alone(&mut sim, &mut ops, 4, Call::Sequence, 100, pick);
     run_alone(&mut sim, &mut ops, 3, Call::Snapshot, 100, pick);
+    run_alone(&mut sim, &mut ops, 3, Call::Sequence, 100, pick);
     ops
 }
 
@@ -1364,6 +1548,13 @@ impl Family for AbtFamily {
         let retries = if thorough { 3 } else { 2 };
         enumerate_traces(&obj, Call::Snapshot, 1 + 3 * (retries + 1), thorough, &mut lines);
         enumerate_traces(&obj, Call::Unlocked, 1 + 3 * 2, false, &mut lines);
+        // (track apileft) sequence(): one relaxed load; extra script entries are never consumed; a
+        // voucher token is ill-typed for the counter
+        enumerate_traces(&obj, Call::Sequence, 2, true, &mut lines);
+        for sc in ["18446744073709551615", "9223372036854775807", "9223372036854775808", "4294967296", "1,2", "7,ok", "v5", "ok"] {
+            lines.push(format!("trace sequence {}", sc));
+        }
+        lines.push("new_default".into());
         for (b, vb) in [(5u64, 5u64), (5, 6), (3, 3), (0, 0)] {
             parse_val(&format!("v{}", vb));
             enumerate_traces(&obj, Call::Update(b, vouch_bits(vb)), 8, false, &mut lines);
@@ -1423,6 +1614,10 @@ impl Family for AbtFamily {
             format!("explore sc {} u5,u9/u7,s", budget),
             format!("explore ra {} u5,u9/u7,s", budget),
             format!("explore sc {} u5,u9/t7,u7,s", budget),
+            // (track apileft) sequence() racing with writers and interleaved with the thread's own snapshots / updates
+            format!("explore ra {} u5,q,u7,q/q,s,q", budget),
+            format!("explore sc {} u5,q,u7/q,s,q/q", budget),
+            format!("explore ra {} u5,u7/q,q,q/t9,q", budget),
         ];
         if thorough {
             explores.push(format!("explore ra {} u5,u7/t6,u8/s,s", budget));
